@@ -270,7 +270,10 @@ where
                                     );
                                 } else {
                                     for s in &**sinks.load() {
-                                        call!(s, message.clone(), "to sink: {message:?}");
+                                        // a nested delivery may have detached this sink meanwhile
+                                        if sinks.load().iter().any(|sink| Arc::ptr_eq(sink, s)) {
+                                            call!(s, message.clone(), "to sink: {message:?}");
+                                        }
                                     }
                                 }
                                 if let Message::Error(_) | Message::Terminate = message {
